@@ -68,8 +68,12 @@ def check(case, assemblies, stats, classes, exact):
             for i in range(1, len(ns) + 1):
                 for j in range(i + 1, len(ns) + 1):
                     a, b = by_n[i]["rows"], by_n[j]["rows"]
-                    if ref.rows_len(b) > ref.rows_len(a) and frag_len(b) > frag_len(a):
+                    # "non-increasing length": the scaffold's length as written (gap rows included); the statement says
+                    # "sequence length" only for the chromosome ranking
+                    if ref.rows_len(b) > ref.rows_len(a):
                         raise Violation(f"H_{j} ({ref.rows_len(b)} bp, {frag_len(b)} without gaps) is longer than H_{i} ({ref.rows_len(a)}, {frag_len(a)})")
+                    if frag_len(b) > frag_len(a):
+                        classes.add("haplotig_order_differs_between_length_and_sequence_length")
             if len(ns) > 1:
                 classes.add("several_haplotigs")
             continue
@@ -155,7 +159,7 @@ def check(case, assemblies, stats, classes, exact):
         sc_tags = {x for r in frs for x in r[5]}
         if "Target" in sc_tags:
             target_seen = True
-        if not painted or (target_seen and "Target" not in sc_tags):
+        if not (painted or nt) or (target_seen and "Target" not in sc_tags):
             continue
         main = [r for r in frs if not set(r[5]) & {"Haplotig", "Contaminant", "FalseDuplicate", "Unloc"}]
         solid = False
@@ -170,6 +174,12 @@ def check(case, assemblies, stats, classes, exact):
             # Primary mode: painted scaffolds belong to the curated (first) haplotype, written as the "Primary" assembly
             want_key = "primary" if hp in (None, haps[0] if haps else None) else hp
         got = [s for s in by_key.get(want_key, []) if s["orig"] == pname and s["rank"] in (1, 2) and "_unloc_" not in s["name"]]
+        if not painted:
+            # a name tag on a scaffold that is not painted: the haplotype may also come from the input name, so the
+            # chromosome is looked for in every curated assembly
+            classes.add("name_tag_without_painted")
+            got = [s for k, scs in assemblies if k not in ("Haplotig", "Contaminant", "FalseDuplicate") for s in scs
+                   if s["orig"] == pname and s["rank"] in (1, 2) and "_unloc_" not in s["name"]]
         if len(got) != 1:
             raise Violation(
                 f"painted Pretext scaffold {pname} (name tag {nt}, haplotype {hp}) should give exactly one chromosome scaffold in assembly "
